@@ -570,7 +570,7 @@ func c14(run *ev.Run, tier string) {
 		if r.P(1, 6) {
 			mi, pa = 99, 99
 		}
-		pre := rng.Pick(r, []string{"rc1", "beta.2", "alpha", "0", "rc-1", "SNAPSHOT", "z", "pre.10"})
+		pre := rng.Pick(r, []string{"rc1", "beta.2", "alpha", "0", "rc-1", "SNAPSHOT", "z", "pre.10", "0.3.7", "0.rc1"}) // (the last two: Fedora-style 0.N.tag identifiers)
 		if r.P(1, 5) {
 			// components that repeat the tail of the version (1.2.3-3, 1.2.0-0+0)
 			pre = strconv.Itoa(pa)
